@@ -110,3 +110,28 @@ def ppoly_default_extrapolate(cls: str) -> bool | None:
             except AnalysisError:
                 return None
     return None
+
+
+def lib_global_is_mutable(dotted: str) -> bool:
+    """`qha.settings.DEFAULT_SETTINGS` -> True when the installed module binds that name at top level to a dict/list/set
+    display, comprehension or constructor call (read from the installed source, nothing imported)"""
+    modname, _, name = dotted.rpartition(".")
+    rel = modname.replace(".", "/")
+    for cand in (rel + ".py", rel + "/__init__.py"):
+        try:
+            tree = parse_lib(cand)
+        except (AnalysisError, OSError, SyntaxError):
+            continue
+        for st in tree.body:
+            tgt = val = None
+            if isinstance(st, ast.Assign) and len(st.targets) == 1:
+                tgt, val = st.targets[0], st.value
+            elif isinstance(st, ast.AnnAssign):
+                tgt, val = st.target, st.value
+            if isinstance(tgt, ast.Name) and tgt.id == name and val is not None:
+                if isinstance(val, (ast.Dict, ast.List, ast.Set, ast.DictComp, ast.ListComp, ast.SetComp)):
+                    return True
+                if isinstance(val, ast.Call) and (dotted_name(val.func) or "").split(".")[-1] in ("dict", "list", "set", "OrderedDict", "defaultdict", "deque", "bytearray"):
+                    return True
+                return False
+    return False
